@@ -448,6 +448,15 @@ theorem matchCase_true1 (X : Ctx) (σ : State) (e : Expr) (b : Bool) (h : evalE 
   simp only [matchCase, evalE, Res.bind, valEq]
   by_cases h : a = b <;> simp [h]
 
+/-- a case value that is a string literal (`switch path { case "stdout": … }`) -/
+@[simp] theorem matchCase_lit_bytes (X : Ctx) (σ : State) (a b : Bytes) (es : List Expr) :
+    matchCase X σ (.bytes a) (.lit (.bytes b) :: es) = if a = b then .ok true else matchCase X σ (.bytes a) es := by
+  simp only [matchCase, evalE, Res.bind, valEq]
+  by_cases h : a = b
+  · simp [h]
+  · have hb : (a == b) = false := by simpa using h
+    simp [h, hb]
+
 @[simp] theorem callVal_def (X : Ctx) (f : String) (args : List Val) :
     callVal X f args = match builtin f args with
       | some v => .ok v
